@@ -3878,12 +3878,23 @@ class Parameters:
                     watchers[parameter_name] = {}
                 if what not in watchers[parameter_name]:
                     watchers[parameter_name][what] = []
-                getattr(watchers[parameter_name][what], action)(watcher)
+                registered = watchers[parameter_name][what]
             else:
                 watchers = self_[parameter_name].watchers
                 if what not in watchers:
                     watchers[what] = []
-                getattr(watchers[what], action)(watcher)
+                registered = watchers[what]
+            if action == 'remove':
+                # this very subscription, not the first one that compares
+                # equal to it (same settings, callbacks that compare equal)
+                for i, w in enumerate(registered):
+                    if w is watcher:
+                        del registered[i]
+                        break
+                else:
+                    registered.remove(watcher)
+            else:
+                getattr(registered, action)(watcher)
 
     def watch(
         self_,
